@@ -116,6 +116,9 @@ func checkC01(w *World, st core.Status, r *RunResult) []Violation {
 	var vs []Violation
 	for _, o := range w.Obs {
 		p := o.Plan
+		if transportLimit(o, r) {
+			continue
+		}
 		tag := cfgTag(w, o)
 		add := func(class, msg string) {
 			vs = append(vs, Violation{Class: "C01/" + class + "/" + tag, Msg: p.ID + ": " + msg})
